@@ -25,16 +25,23 @@ def gen_extract_doc(rng):
             else:
                 parts.append(listed(depth + 1))
         return ' '.join(parts)
+    cur = {'v': None}
     def listed(depth):
         name = rng.choice(['\\inc', '\\incb'])
-        # the argument of a listed macro: plain words (a nested listed macro is reported as well, after it)
+        # the argument of a listed macro: plain words (a nested listed macro is reported as well, after it),
+        # possibly through a helper macro that is redefined later in the document
         w = [names.word() for _ in range(rng.randint(1, 2))]
+        if cur['v'] is not None and rng.random() < 0.5:
+            expect.append(w + [cur['v']])
+            return name + '{' + ' '.join(w) + ' \\dd}'
         expect.append(w)
-        opt = '[' + names.word() + ']' if False else ''
-        return name + opt + '{' + ' '.join(w) + '}'
+        return name + '{' + ' '.join(w) + '}'
     hidden = []
     for _ in range(rng.randint(2, 9)):
         r = rng.random()
+        if rng.random() < 0.2:
+            cur['v'] = names.word()
+            out.append('\\def\\dd{' + cur['v'] + '}\n')
         if r < 0.3:
             out.append(names.word())
         elif r < 0.55:
